@@ -1,10 +1,11 @@
 import Uds.Lemmas.Loops
+import Uds.Props.C02
 /-
   C11 — zero padding: trailing zeros are ignored when tolerated, rejected when not.
   For any well-formed reply `enc v` and any number `n` of appended zero bytes.
 -/
 namespace Uds.Props.C11
-open Uds Uds.Model Uds.Spec
+open Uds Uds.Model Uds.Spec Uds.Props.C02
 
 /-! ### ReadDTCInformation, availability-mask groups (records of 4 / 6 bytes) -/
 
@@ -112,6 +113,290 @@ theorem io_pad_rejected (e : IoEntry) (did : Nat) (cp : Option Nat) (data : Byte
   simp only [hl, Bool.and_false, Bool.false_eq_true, if_false]
   have : ¬ (data ++ zeros n).length = data.length := by rw [len_pad]; omega
   rw [if_neg this]; rfl
+
+/-! ### WWH-OBD records (0x42 / 0x55) followed by zero bytes -/
+
+theorem wwhLoop_prefix (tol ign : Bool) (rs : List DtcRec) (tail : Bytes) (acc : List DtcRec) (hr : ∀ r ∈ rs, WwhOk r ∧ wwhNonZero ign r) :
+    wwhLoop tol ign (encWwhs rs ++ tail) acc = wwhLoop tol ign tail (acc ++ rs) := by
+  induction rs generalizing acc with
+  | nil => simp [encWwhs]
+  | cons r rest ih =>
+    simp only [encWwhs, List.append_assoc]
+    rw [wwhLoop_cons _ _ _ _ _ (hr r (by simp)).1 (hr r (by simp)).2, ih _ (fun x hx => hr x (by simp [hx]))]
+    simp
+
+def zeroWwh : DtcRec := { id := 0 }
+
+theorem wwhLoop_zeros (ign : Bool) (n : Nat) (acc : List DtcRec) :
+    wwhLoop true ign (zeros n) acc = .ok (acc ++ (if ign then [] else List.replicate (n / 5) zeroWwh)) := by
+  induction n using Nat.strongRecOn generalizing acc with
+  | _ n ih =>
+    rw [wwhLoop]
+    by_cases h0 : n = 0
+    · subst h0; simp [zeros_length]
+    · have h0' : ¬ (zeros n).length = 0 := by simpa [zeros_length] using h0
+      rw [dif_neg h0']
+      by_cases h1 : n < 5
+      · have h1' : (zeros n).length < 5 := by simpa [zeros_length] using h1
+        rw [dif_pos h1']
+        simp [allZero_zeros, Nat.div_eq_of_lt h1]
+      · have h1' : ¬ (zeros n).length < 5 := by simpa [zeros_length] using h1
+        rw [dif_neg h1']
+        simp only [zeros_take, zeros_drop, Nat.min_eq_left (Nat.le_of_not_lt h1), allZero_zeros, Bool.true_and]
+        have hdiv : n / 5 = (n - 5) / 5 + 1 := by omega
+        cases ign
+        · simp only [Bool.false_eq_true, if_false]
+          simp only [bind, Except.bind]
+          have i0 : idx (zeros 5) 0 = .ok 0 := by decide
+          have i4 : idx (zeros 5) 4 = .ok 0 := by decide
+          simp only [i0, i4]
+          rw [ih (n - 5) (by omega)]
+          simp only [Bool.false_eq_true, if_false, hdiv, List.replicate_succ, List.append_assoc, List.singleton_append]
+          rfl
+        · simp only [if_true]
+          rw [ih (n - 5) (by omega)]
+          simp
+
+theorem wwhLoop_zeros_rejected (ign : Bool) (n : Nat) (acc : List DtcRec) (hn : n % 5 ≠ 0) :
+    wwhLoop false ign (zeros n) acc = .error .invalid := by
+  induction n using Nat.strongRecOn generalizing acc with
+  | _ n ih =>
+    rw [wwhLoop]
+    have h0 : n ≠ 0 := by intro h; subst h; simp at hn
+    have h0' : ¬ (zeros n).length = 0 := by simpa [zeros_length] using h0
+    rw [dif_neg h0']
+    by_cases h1 : n < 5
+    · have h1' : (zeros n).length < 5 := by simpa [zeros_length] using h1
+      rw [dif_pos h1']; simp
+    · have h1' : ¬ (zeros n).length < 5 := by simpa [zeros_length] using h1
+      rw [dif_neg h1']
+      simp only [zeros_take, zeros_drop, Nat.min_eq_left (Nat.le_of_not_lt h1), allZero_zeros, Bool.true_and]
+      have hmod : (n - 5) % 5 ≠ 0 := by omega
+      cases ign
+      · simp only [Bool.false_eq_true, if_false]
+        have i0 : idx (zeros 5) 0 = .ok 0 := by decide
+        have i4 : idx (zeros 5) 4 = .ok 0 := by decide
+        simp only [i0, i4, bind, Except.bind]
+        exact ih (n - 5) (by omega) _ hmod
+      · simp only [if_true]
+        exact ih (n - 5) (by omega) _ hmod
+
+/-- **WWH-OBD, tolerated** -/
+theorem wwh_pad_tolerated (ign : Bool) (rs : List DtcRec) (n : Nat) (acc : List DtcRec) (hr : ∀ r ∈ rs, WwhOk r ∧ wwhNonZero ign r) :
+    wwhLoop true ign (encWwhs rs ++ zeros n) acc = .ok (acc ++ rs ++ (if ign then [] else List.replicate (n / 5) zeroWwh)) := by
+  rw [wwhLoop_prefix true ign rs (zeros n) acc hr, wwhLoop_zeros]
+
+/-- **WWH-OBD, not tolerated**: zero bytes that do not form whole records are refused -/
+theorem wwh_pad_rejected (ign : Bool) (rs : List DtcRec) (n : Nat) (acc : List DtcRec) (hr : ∀ r ∈ rs, WwhOk r ∧ wwhNonZero ign r) (hn : n % 5 ≠ 0) :
+    wwhLoop false ign (encWwhs rs ++ zeros n) acc = .error .invalid := by
+  rw [wwhLoop_prefix false ign rs (zeros n) acc hr]; exact wwhLoop_zeros_rejected ign n _ hn
+
+/-! ### fault-detection counters (0x14) followed by zero bytes -/
+
+theorem faultLoop_prefix (tol ign : Bool) (rs : List DtcRec) (tail : Bytes) (acc : List DtcRec) (hr : ∀ r ∈ rs, FaultOk r ∧ faultNonZero ign r) :
+    g3Loop tol ign false (encFaults rs ++ tail) acc = g3Loop tol ign false tail (acc ++ rs) := by
+  induction rs generalizing acc with
+  | nil => simp [encFaults]
+  | cons r rest ih =>
+    obtain ⟨⟨hid, ⟨f, hf, hf256⟩, hst, hsev, hfu, hs, he⟩, hnz⟩ := hr r (by simp)
+    simp only [encFaults, List.append_assoc]
+    rw [g3Loop]
+    have hl := encFault_length r
+    have h0 : ¬ (encFault r ++ (encFaults rest ++ tail)).length = 0 := by simp [hl]
+    have h1 : ¬ (encFault r ++ (encFaults rest ++ tail)).length < 4 := by simp [hl]
+    have ht : (encFault r ++ (encFaults rest ++ tail)).take 4 = encFault r := by
+      rw [List.take_append_of_le_length (by omega), List.take_of_length_le (by omega)]
+    have hdp : (encFault r ++ (encFaults rest ++ tail)).drop 4 = encFaults rest ++ tail := by
+      rw [List.drop_append_of_le_length (by omega), List.drop_of_length_le (by omega)]; simp
+    have i3 : idx (encFault r) 3 = .ok (UInt8.ofNat f) := by simp [encFault, hf, idx, pure, Except.pure]
+    have hb : be3 (encFault r) = r.id := by simp only [encFault]; exact be3_toBE _ _ hid
+    unfold faultNonZero at hnz
+    simp only [dif_neg h0, dif_neg h1, ht, hdp, hnz, Bool.false_eq_true, if_false, i3, hb, bind, Except.bind, toNat_ofNat_lt hf256]
+    rw [ih _ (fun x hx => hr x (by simp [hx]))]
+    have : ({ id := r.id, fault := some f } : DtcRec) = r := by cases r; simp_all
+    rw [this]; simp
+
+def zeroFault : DtcRec := { id := 0, fault := some 0 }
+
+theorem faultLoop_zeros (ign : Bool) (n : Nat) (acc : List DtcRec) :
+    g3Loop true ign false (zeros n) acc = .ok (acc ++ (if ign then [] else List.replicate (n / 4) zeroFault)) := by
+  induction n using Nat.strongRecOn generalizing acc with
+  | _ n ih =>
+    rw [g3Loop]
+    by_cases h0 : n = 0
+    · subst h0; simp [zeros_length]
+    · have h0' : ¬ (zeros n).length = 0 := by simpa [zeros_length] using h0
+      rw [dif_neg h0']
+      by_cases h1 : n < 4
+      · have h1' : (zeros n).length < 4 := by simpa [zeros_length] using h1
+        rw [dif_pos h1']
+        simp [allZero_zeros, Nat.div_eq_of_lt h1]
+      · have h1' : ¬ (zeros n).length < 4 := by simpa [zeros_length] using h1
+        rw [dif_neg h1']
+        simp only [zeros_take, zeros_drop, Nat.min_eq_left (Nat.le_of_not_lt h1), allZero_zeros, Bool.true_and]
+        have hdiv : n / 4 = (n - 4) / 4 + 1 := by omega
+        cases ign
+        · have i3 : idx (zeros 4) 3 = .ok 0 := by decide
+          simp only [Bool.false_eq_true, if_false, i3, bind, Except.bind]
+          rw [ih (n - 4) (by omega)]
+          simp only [Bool.false_eq_true, if_false, hdiv, List.replicate_succ, List.append_assoc, List.singleton_append]
+          rfl
+        · simp only [if_true]
+          rw [ih (n - 4) (by omega)]
+          simp
+
+theorem faultLoop_zeros_rejected (ign : Bool) (n : Nat) (acc : List DtcRec) (hn : n % 4 ≠ 0) :
+    g3Loop false ign false (zeros n) acc = .error .invalid := by
+  induction n using Nat.strongRecOn generalizing acc with
+  | _ n ih =>
+    rw [g3Loop]
+    have h0 : n ≠ 0 := by intro h; subst h; simp at hn
+    have h0' : ¬ (zeros n).length = 0 := by simpa [zeros_length] using h0
+    rw [dif_neg h0']
+    by_cases h1 : n < 4
+    · have h1' : (zeros n).length < 4 := by simpa [zeros_length] using h1
+      rw [dif_pos h1']; simp
+    · have h1' : ¬ (zeros n).length < 4 := by simpa [zeros_length] using h1
+      rw [dif_neg h1']
+      simp only [zeros_take, zeros_drop, Nat.min_eq_left (Nat.le_of_not_lt h1), allZero_zeros, Bool.true_and]
+      have hmod : (n - 4) % 4 ≠ 0 := by omega
+      cases ign
+      · have i3 : idx (zeros 4) 3 = .ok 0 := by decide
+        simp only [Bool.false_eq_true, if_false, i3, bind, Except.bind]
+        exact ih (n - 4) (by omega) _ hmod
+      · simp only [if_true]
+        exact ih (n - 4) (by omega) _ hmod
+
+theorem fault_pad_tolerated (ign : Bool) (rs : List DtcRec) (n : Nat) (acc : List DtcRec) (hr : ∀ r ∈ rs, FaultOk r ∧ faultNonZero ign r) :
+    g3Loop true ign false (encFaults rs ++ zeros n) acc = .ok (acc ++ rs ++ (if ign then [] else List.replicate (n / 4) zeroFault)) := by
+  rw [faultLoop_prefix true ign rs (zeros n) acc hr, faultLoop_zeros]
+
+theorem fault_pad_rejected (ign : Bool) (rs : List DtcRec) (n : Nat) (acc : List DtcRec) (hr : ∀ r ∈ rs, FaultOk r ∧ faultNonZero ign r) (hn : n % 4 ≠ 0) :
+    g3Loop false ign false (encFaults rs ++ zeros n) acc = .error .invalid := by
+  rw [faultLoop_prefix false ign rs (zeros n) acc hr]; exact faultLoop_zeros_rejected ign n _ hn
+
+/-! ### extended data by DTC number (0x06 / 0x10 / 0x19) followed by zero bytes: record number 0 does not exist, so the first zero ends the list -/
+
+theorem extLoop_prefix (tol : Bool) (size : Nat) (l : List (Nat × Bytes)) (tail : Bytes) (acc : List (Nat × Bytes)) (h : ∀ e ∈ l, ExtOk size e) :
+    extByDtcLoop tol size (encExts l ++ tail) acc = extByDtcLoop tol size tail (acc ++ l) := by
+  induction l generalizing acc with
+  | nil => simp [encExts]
+  | cons e rest ih =>
+    obtain ⟨n, b⟩ := e
+    obtain ⟨h0, h1, h2⟩ := h (n, b) (by simp)
+    simp only at h0 h1 h2
+    rw [extByDtcLoop]
+    have hne : ¬ (encExts ((n, b) :: rest) ++ tail).length = 0 := by simp [encExts]
+    rw [dif_neg hne]
+    have hi : idx (encExts ((n, b) :: rest) ++ tail) 0 = .ok (UInt8.ofNat n) := by simp [encExts, idx, pure, Except.pure]
+    have hn : (UInt8.ofNat n).toNat = n := toNat_ofNat_lt h1
+    have hz : (n == 0) = false := by simpa using (show n ≠ 0 by omega)
+    have hd : (encExts ((n, b) :: rest) ++ tail).drop 1 = b ++ (encExts rest ++ tail) := by simp [encExts]
+    simp only [hi, bind, Except.bind, hn, hz, Bool.false_eq_true, if_false, hd]
+    have hlen : ¬ (b ++ (encExts rest ++ tail)).length < size := by simp; omega
+    rw [if_neg hlen]
+    have ht : (b ++ (encExts rest ++ tail)).take size = b := by rw [← h2]; simp
+    have hdr : (b ++ (encExts rest ++ tail)).drop size = encExts rest ++ tail := by rw [← h2]; simp
+    rw [ht, hdr, ih _ (fun e he => h e (by simp [he]))]
+    simp only [List.append_assoc, List.singleton_append]
+
+theorem ext_pad (tol : Bool) (size : Nat) (l : List (Nat × Bytes)) (n : Nat) (acc : List (Nat × Bytes)) (h : ∀ e ∈ l, ExtOk size e) (hn : 0 < n) :
+    extByDtcLoop tol size (encExts l ++ zeros n) acc = if tol then .ok (acc ++ l) else .error .invalid := by
+  rw [extLoop_prefix tol size l (zeros n) acc h, extByDtcLoop]
+  have h0 : ¬ (zeros n).length = 0 := by rw [zeros_length]; omega
+  rw [dif_neg h0]
+  have i0 : idx (zeros n) 0 = .ok 0 := by
+    cases n with
+    | zero => omega
+    | succ k => simp [zeros, idx, List.replicate_succ, pure, Except.pure]
+  simp only [i0, bind, Except.bind, allZero_zeros, Bool.true_and]
+  cases tol <;> simp
+
+/-! ### ReadDataByIdentifier followed by zero bytes (fixed-length codecs; identifier 0x0000 not configured) -/
+
+def DidsFixed (cfg : DidCfg) (tol : Bool) : List (Nat × Bytes) → Prop
+  | [] => True
+  | (d, v) :: rest => d < 65536 ∧ (d ≠ 0 ∨ cfg.entries.any (·.1 == 0) = true ∨ tol = false) ∧ fetchCodec cfg d = .ok (some v.length) ∧ DidsFixed cfg tol rest
+
+theorem rdbiLoop_prefix (cfg : DidCfg) (tol : Bool) (l : List (Nat × Bytes)) (tail : Bytes) (acc : List (Nat × Bytes)) (h : DidsFixed cfg tol l)
+    (hnd : ((acc ++ l).map (·.1)).Nodup) : rdbiLoop cfg tol (encDids l ++ tail) acc = rdbiLoop cfg tol tail (acc ++ l) := by
+  induction l generalizing acc with
+  | nil => simp [encDids]
+  | cons e rest ih =>
+    obtain ⟨d, v⟩ := e
+    obtain ⟨hd, hz, hf, hrest⟩ := h
+    have hlen : (encDids ((d, v) :: rest) ++ tail).length = 2 + (v ++ (encDids rest ++ tail)).length := by simp [encDids]
+    have ht : (encDids ((d, v) :: rest) ++ tail).take 2 = toBE 2 d := by
+      simp only [encDids, List.append_assoc]
+      rw [List.take_append_of_le_length (by simp)]; exact List.take_of_length_le (by simp)
+    have hdr : (encDids ((d, v) :: rest) ++ tail).drop 2 = v ++ (encDids rest ++ tail) := by
+      simp only [encDids, List.append_assoc]
+      rw [List.drop_append_of_le_length (by simp)]; simp [List.drop_of_length_le]
+    have hu : unpackBE 2 (toBE 2 d) = .ok d := by
+      simp [unpackBE, fromBE_toBE_of_lt (show d < 256 ^ 2 by omega), pure, Except.pure]
+    have hcond : (d == 0 && !cfg.entries.any (·.1 == 0) && tol && allZero (encDids ((d, v) :: rest) ++ tail)) = false := by
+      rcases hz with hz | hz | hz
+      · have : (d == 0) = false := by simpa using hz
+        simp [this]
+      · simp [hz]
+      · simp [hz]
+    have hnew : ∀ e ∈ acc, e.1 ≠ d := by
+      intro e he heq
+      rw [List.map_append, List.map_cons] at hnd
+      exact (List.nodup_append.1 hnd).2.2 e.1 (List.mem_map_of_mem he) d (by simp) heq
+    have hnd' : (((acc ++ [(d, v)]) ++ rest).map (·.1)).Nodup := by simpa using hnd
+    rw [rdbiLoop]
+    rw [dif_neg (by omega), dif_neg (by omega)]
+    simp only [ht, hu, bind, Except.bind, hcond, Bool.false_eq_true, if_false, hf, hdr]
+    have h1 : ¬ (v ++ (encDids rest ++ tail)).length < v.length := by simp
+    have h2 : (v ++ (encDids rest ++ tail)).take v.length = v := by simp
+    have h3 : (v ++ (encDids rest ++ tail)).drop v.length = encDids rest ++ tail := by simp
+    simp only [h1, if_false, h2, h3, dictSet_new acc d v hnew]
+    rw [ih _ hrest hnd']; simp
+
+theorem rdbiLoop_zeros (cfg : DidCfg) (n : Nat) (acc : List (Nat × Bytes)) (h0 : cfg.entries.any (·.1 == 0) = false) :
+    rdbiLoop cfg true (zeros n) acc = .ok acc := by
+  rw [rdbiLoop]
+  by_cases hn0 : n = 0
+  · subst hn0; simp [zeros_length, pure, Except.pure]
+  · have h0' : ¬ (zeros n).length = 0 := by simpa [zeros_length] using hn0
+    rw [dif_neg h0']
+    by_cases hn1 : n ≤ 1
+    · have : (zeros n).length ≤ 1 := by simpa [zeros_length] using hn1
+      rw [dif_pos this]
+      have hn : n = 1 := by omega
+      subst hn
+      simp [zeros, idx, pure, Except.pure, bind, Except.bind]
+    · have : ¬ (zeros n).length ≤ 1 := by simpa [zeros_length] using hn1
+      rw [dif_neg this]
+      have ht : (zeros n).take 2 = zeros 2 := by rw [zeros_take]; congr 1; omega
+      have hu : unpackBE 2 (zeros 2) = .ok 0 := by decide
+      simp only [ht, hu, bind, Except.bind, h0, allZero_zeros]
+      simp [pure, Except.pure]
+
+/-- **ReadDataByIdentifier, tolerated**: any number of zero bytes after the records is ignored -/
+theorem rdbi_pad_tolerated (cfg : DidCfg) (l : List (Nat × Bytes)) (n : Nat) (h : DidsFixed cfg true l) (hnd : (l.map (·.1)).Nodup)
+    (h0 : cfg.entries.any (·.1 == 0) = false) : rdbiLoop cfg true (encDids l ++ zeros n) [] = .ok l := by
+  rw [rdbiLoop_prefix cfg true l (zeros n) [] h (by simpa using hnd), rdbiLoop_zeros cfg n _ h0]; simp
+
+/-- **ReadDataByIdentifier, not tolerated**: one trailing zero byte is an invalid response -/
+theorem rdbi_pad1_rejected (cfg : DidCfg) (l : List (Nat × Bytes)) (h : DidsFixed cfg false l) (hnd : (l.map (·.1)).Nodup) :
+    rdbiLoop cfg false (encDids l ++ zeros 1) [] = .error .invalid := by
+  rw [rdbiLoop_prefix cfg false l (zeros 1) [] h (by simpa using hnd), rdbiLoop]
+  simp [zeros, idx, pure, Except.pure, bind, Except.bind]
+
+/-- … and two or more zero bytes read as identifier 0x0000, which has no codec: the interpreter stops with the missing-codec error that
+    `read_data_by_identifier` reports as an unexpected response -/
+theorem rdbi_pad2_rejected (cfg : DidCfg) (l : List (Nat × Bytes)) (n : Nat) (h : DidsFixed cfg false l) (hnd : (l.map (·.1)).Nodup) (hn : 2 ≤ n)
+    (h0 : cfg.find 0 = none) : rdbiLoop cfg false (encDids l ++ zeros n) [] = .error .config := by
+  rw [rdbiLoop_prefix cfg false l (zeros n) [] h (by simpa using hnd), rdbiLoop]
+  have h0' : ¬ (zeros n).length = 0 := by rw [zeros_length]; omega
+  have h1' : ¬ (zeros n).length ≤ 1 := by rw [zeros_length]; omega
+  rw [dif_neg h0', dif_neg h1']
+  have ht : (zeros n).take 2 = zeros 2 := by rw [zeros_take]; congr 1; omega
+  have hu : unpackBE 2 (zeros 2) = .ok 0 := by decide
+  simp only [ht, hu, bind, Except.bind, Bool.and_false, Bool.false_and, Bool.false_eq_true, if_false, fetchCodec, h0]
+  rfl
 
 /-! ### non-vacuity -/
 example : recordLoop true false false false false (encRecs false [{ id := 0x123456, status := 0x78 }] ++ zeros 5) [] =
